@@ -12,6 +12,9 @@
 //	reload                              NewBasicDirectoryFromNode(node.Copy()) (what NewDirectoryFromNode does)
 //	setstat <mode> <sec> <nsec>         SetStat
 //	remode                              SetSizeEstimationMode(Links); SetSizeEstimationMode(Block)  (forces a recompute)
+//	newdirm <L|B|D> <mode> <sec> <nsec>  NewBasicDirectory with estimation mode Links / Block / Disabled
+//	setest <L|B|D>                      SetSizeEstimationMode
+//	setmaxlinks <n>                     SetMaxLinks (a new name is refused when reached)
 //	stat                                -> est=<estimatedSize> n=<totalLinks> raw=<len(GetNode().RawData())>
 //	dynnew <threshold> <mode> <sec> <nsec> | dynadd <name> <cid> <tsize> | dynrm <name> | dynfit <k> (threshold := block length + k)
 //	                                    a DynamicDirectory (block mode, per-directory HAMTShardingSize); these ops
@@ -244,7 +247,14 @@ func gen(r *vh.Rand, tier string, n int, emit func(vh.Case)) {
 			emit(c)
 			continue
 		}
-		c.Ops = append(c.Ops, fmt.Sprintf("newdir %s %s", modeTok(r), timeTok(r)))
+		if r.Chance(1, 5) {
+			c.Ops = append(c.Ops, fmt.Sprintf("newdirm %s %s %s", vh.Pick(r, []string{"L", "D", "B"}), modeTok(r), timeTok(r)))
+		} else {
+			c.Ops = append(c.Ops, fmt.Sprintf("newdir %s %s", modeTok(r), timeTok(r)))
+		}
+		if r.Chance(1, 6) {
+			c.Ops = append(c.Ops, "setmaxlinks "+strconv.Itoa(r.Range(1, 6)))
+		}
 		var used []string
 		m := 3 + r.Intn(20)
 		if tier == "thorough" {
@@ -279,8 +289,13 @@ func gen(r *vh.Rand, tier string, n int, emit func(vh.Case)) {
 			case 10, 11:
 				c.Ops = append(c.Ops, "reload")
 			case 12:
-				if r.Chance(1, 2) {
+				switch r.Intn(6) {
+				case 0, 1:
 					c.Ops = append(c.Ops, "remode")
+				case 2:
+					c.Ops = append(c.Ops, "setest "+vh.Pick(r, []string{"L", "D", "B", "B"}))
+				case 3:
+					c.Ops = append(c.Ops, "setmaxlinks "+strconv.Itoa(r.Range(0, 8)))
 				}
 			case 13:
 				if r.Chance(1, 4) {
@@ -330,13 +345,26 @@ type st struct {
 	statDrift bool   // SetStat was called on this directory object (its stored mode/mtime differ from the node's)
 	zeroPerm  bool   // created with a mode that has type bits but no permission bits (Mode field = 0 stored)
 	edits     int
+	est       uio.SizeEstimationMode
+	maxLinks  int
 }
 
 func (s *st) answer(o *vh.Out, res string) {
 	nd, _ := s.d.GetNode()
 	raw := len(nd.RawData())
 	est := s.d.VerifEstimatedSize()
-	if est != raw {
+	if s.est != uio.SizeEstimationBlock {
+		// legacy modes: the estimate is the sum of name + CID lengths (Links) or 0 (Disabled)
+		want := 0
+		if s.est == uio.SizeEstimationLinks {
+			for _, l := range nd.Links() {
+				want += len(l.Name) + l.Cid.ByteLen()
+			}
+		}
+		if est != want {
+			o.Fail("legacy-estimate", "estimation mode %d: estimatedSize=%d, want %d", s.est, est, want)
+		}
+	} else if est != raw {
 		sig := "estimate-not-exact"
 		switch {
 		case s.statDrift:
@@ -402,7 +430,7 @@ func exec(c vh.Case, o *vh.Out) {
 			if err != nil {
 				panic(err)
 			}
-			*s = st{d: d, zeroPerm: md != 0 && uint32(md)&0x00D001FF == 0}
+			*s = st{d: d, zeroPerm: md != 0 && uint32(md)&0x00D001FF == 0, est: uio.SizeEstimationBlock}
 			if md != 0 {
 				o.Kind("dir-mode")
 			}
@@ -416,10 +444,45 @@ func exec(c vh.Case, o *vh.Out) {
 				}
 			}
 			s.answer(o, "ok")
+		case "newdirm":
+			em := map[string]uio.SizeEstimationMode{"L": uio.SizeEstimationLinks, "B": uio.SizeEstimationBlock, "D": uio.SizeEstimationDisabled}[f[1]]
+			md, t := os.FileMode(uint32(u64(f[2]))), parseTime(f[3], f[4])
+			d, err := uio.NewBasicDirectory(nil, uio.WithSizeEstimationMode(em), uio.WithStat(md, t))
+			if err != nil {
+				panic(err)
+			}
+			*s = st{d: d, zeroPerm: md != 0 && uint32(md)&0x00D001FF == 0, est: em}
+			o.Kind("estmode-" + f[1])
+			s.answer(o, "ok")
+		case "setest":
+			em := map[string]uio.SizeEstimationMode{"L": uio.SizeEstimationLinks, "B": uio.SizeEstimationBlock, "D": uio.SizeEstimationDisabled}[f[1]]
+			s.d.SetSizeEstimationMode(em)
+			s.est = em
+			o.Kind("setest")
+			s.answer(o, "ok")
+		case "setmaxlinks":
+			s.maxLinks = vh.Atoi(f[1])
+			s.d.SetMaxLinks(s.maxLinks)
+			if s.d.GetMaxLinks() != s.maxLinks {
+				o.Fail("maxlinks-accessor", "GetMaxLinks()=%d after SetMaxLinks(%d)", s.d.GetMaxLinks(), s.maxLinks)
+			}
+			o.Kind("setmaxlinks")
+			s.answer(o, "ok")
 		case "add":
 			nm, cc, ts := string(vh.UnHex(f[1])), parseCid(f[2]), u64(f[3])
+			nd0, _ := s.d.GetNode()
+			_, lerr := nd0.(*merkledag.ProtoNode).GetNodeLink(nm)
+			full := lerr != nil && s.maxLinks > 0 && len(nd0.Links())+1 > s.maxLinks
 			err := s.d.AddChild(ctx, nm, &stub{cc, ts})
 			s.edits++
+			if err == nil && full {
+				o.Fail("maxlinks-exceeded", "AddChild of a new name succeeded with %d links and maxLinks=%d", len(nd0.Links()), s.maxLinks)
+			}
+			if err != nil && full {
+				o.Kind("add-maxlinks")
+				s.answer(o, "err")
+				break
+			}
 			if err != nil {
 				if ts <= math.MaxInt64 {
 					o.Fail("add-rejected", "AddChild failed: %v", err)
@@ -445,6 +508,7 @@ func exec(c vh.Case, o *vh.Out) {
 			nd, _ := s.d.GetNode()
 			s.d = uio.NewBasicDirectoryFromNode(nil, nd.Copy().(*merkledag.ProtoNode))
 			s.reloaded, s.statDrift = true, false
+			s.est, s.maxLinks = uio.SizeEstimationBlock, 0
 			o.Kind("reload")
 			s.answer(o, "ok")
 		case "setstat":
@@ -458,6 +522,7 @@ func exec(c vh.Case, o *vh.Out) {
 		case "remode":
 			s.d.SetSizeEstimationMode(uio.SizeEstimationLinks)
 			s.d.SetSizeEstimationMode(uio.SizeEstimationBlock)
+			s.est = uio.SizeEstimationBlock
 			o.Kind("remode")
 			s.answer(o, "ok")
 		case "stat":
